@@ -496,6 +496,10 @@ Definition mismatches := mismatches_from 0.
 (* ---- constructors used by the harness printer ----
    Observed strings are printed compressed: a value is the comma-join of pieces, a piece being a literal
    (Coq string) or a reference to a digest / URL of the case's own children. [V cs ps] decodes it. *)
+(* run-length helpers for long literals: [srep n s] = s repeated n times *)
+Fixpoint srep (n : nat) (s : String.string) : String.string :=
+  match n with O => String.EmptyString | S n' => String.append s (srep n' s) end.
+Definition sapp : String.string -> String.string -> String.string := String.append.
 Definition s2b (s : String.string) : str :=
   map (fun a => Ascii.N_of_ascii a) (String.list_ascii_of_string s).
 Inductive piece := PD (i : nat) | PU (i j : nat) | PS (s : String.string).
